@@ -8,3 +8,6 @@ using hn_t = nmtools::array::hybrid_ndarray<nm_size_t,8,1>;
 using opt_hn_t = nmtools_maybe<hn_t>;
 
 opt_hn_t verif_broadcast_shape(sv_t a, sv_t b) { return ix::broadcast_shape(a,b); }
+using svb_t = nmtools::utl::static_vector<bool,8>;
+using opt_bto_t = nmtools_maybe<nmtools_tuple<sv_t,svb_t>>;
+opt_bto_t verif_shape_broadcast_to(sv_t a, sv_t b) { return ix::shape_broadcast_to(a,b); }
